@@ -18,6 +18,7 @@ func init() {
 	rt.Register("C05_ArithFree", C05_ArithFree)
 	rt.Register("C05_ArithSkeleton", C05_ArithSkeleton)
 	rt.Register("C05_ArithLongChain", C05_ArithLongChain)
+	rt.Register("C05_ArithBlankLines", C05_ArithBlankLines)
 }
 
 // binop evaluates  left op right  on int64; division by zero is an
@@ -424,5 +425,35 @@ func C05_ArithLongChain() {
 		in = append(in, ')')
 	}
 	rt.Cover("long flat chain")
+	Check(in)
+}
+
+// C05_ArithBlankLines: operands and operators separated by fixed whitespace
+// with blank lines (two line feeds in a row, a leading line feed), digits and
+// operators symbolic: the reported line:column of a division by zero behind a
+// blank line.
+func C05_ArithBlankLines() {
+	digit := func() byte {
+		b := rt.Byte("in")
+		rt.Assume(b >= '0' && b <= '9')
+		return b
+	}
+	op := func() byte {
+		o := rt.Byte("in")
+		rt.Assume(o == '+' || o == '-' || o == '*' || o == '/')
+		return o
+	}
+	var in []byte
+	if rt.Choose("lead", 2) == 1 {
+		in = append(in, '\n')
+	}
+	in = append(in, digit())
+	in = append(in, " \n\n"...)
+	in = append(in, op(), ' ', digit())
+	if rt.Choose("operands", 2) == 1 {
+		in = append(in, "\n\n\n  "...)
+		in = append(in, op(), '\n', digit())
+	}
+	rt.Cover("blank line between tokens")
 	Check(in)
 }
